@@ -282,6 +282,14 @@ fn run(t: &[&str]) -> String {
         }
         "interlace" => format!("ok {}", fmt_img(&interlace_image(&parse_img(t[1])))),
         "deinterlace" => format!("ok {}", fmt_img(&deinterlace_image(&parse_img(t[1])))),
+        // chil <0|1> <img>: PngImage::change_interlacing (the entry point the reductions use)
+        "chil" => {
+            let target = if t[1] == "1" { oxipng::Interlacing::Adam7 } else { oxipng::Interlacing::None };
+            match parse_img(t[2]).change_interlacing(target) {
+                Some(i) => format!("ok {}", fmt_img(&i)),
+                None => "none".to_string(),
+            }
+        }
         // reduce <name> <img> [flag]
         "reduce" => {
             let img = parse_img(t[2]);
@@ -409,7 +417,20 @@ fn run(t: &[&str]) -> String {
             let o = parse_opts(t[1]);
             let max = if t[2] == "-" { None } else { Some(t[2].parse().unwrap()) };
             let img = parse_img(t[3]);
-            let (r, rec) = with_log(None, || optimize_raw(img, &o, max));
+            // optional 5th token: "<k>" expiry first seen at the k-th clock consultation, "m<bits>" explicit answers
+            let exp = match t.get(4) {
+                None => None,
+                Some(x) if *x == "-" => None,
+                Some(x) => {
+                    if let Some(bits) = x.strip_prefix('m') {
+                        MASK.with(|m| *m.borrow_mut() = Some(bits.chars().map(|c| c == '1').collect()));
+                        None
+                    } else {
+                        Some(x.parse().unwrap())
+                    }
+                }
+            };
+            let (r, rec) = with_log(exp, || optimize_raw(img, &o, max));
             match r {
                 Some(c) => format!("some {} {} {} {}{}", c.filter as u8, c.estimated_output_size, fmt_img(&c.image), hex(&c.idat), rec),
                 None => format!("none{}", rec),
